@@ -341,7 +341,7 @@ func TestVerifC03(t *testing.T) {
 		declared []string
 	}
 	cfgs := []cfg{
-		{false, []string{"leafs"}}, {false, []string{"widgets"}}, {false, []string{"leafs", "widgets"}},
+		{false, []string{"leafs"}}, {false, []string{"widgets"}}, {false, []string{"leafs", "widgets"}}, {false, []string{"leafs", "cwidgets"}},
 		{true, []string{"leafs"}}, {true, []string{"cwidgets"}}, {true, []string{"leafs", "cwidgets"}},
 	}
 	for ci, cf := range cfgs {
